@@ -14,6 +14,13 @@ CLAIMED = {
          'an independent Python statement of C01 is evaluated on the implementation as well.',
          BASE + 'Modelled, not verified: inspect.getfullargspec (signatures arrive as data), Python argument binding (pyBind), '
          'copy.deepcopy of reference-free values = identity.'),
+ 'C09': ('Theorems item_restores / items_restores (every exit path incl. exceptions and invalid arguments, any depth) / enter_semantics / '
+         'thread_private (every interleaving of scheduling turns) / thread_schedule_independent hold for the scope mirror; it is tied '
+         'to gin.config by running 1-4 real threads, each with its own random block program, one scheduling group at a time under a '
+         'deterministic baton scheduler, comparing every observation (current_scope and the value a scoped probe receives) and the '
+         'final scope with the mirror and with an independent per-thread interpreter.',
+         BASE + 'Partial: that the real stack is per-thread (threading.local) is a runtime fact tied by correspondence only; '
+         'scheduling points are at block entry / normal exit / observation / raise, unwinding is one turn.'),
  'C10': ('Theorems vararg_required_rejected / missing_reported (exact list, signature order, stated against the overlay) / '
          'all_filled_passes / marker_never_delivered / required_sig_validation hold for every signature, marker placement, store and scope; '
          'the wrapper mirror is tied to gin.config by generated calls with markers in every position; an independent Python statement of '
